@@ -465,6 +465,67 @@ func TestVerif_Encoders(t *testing.T) {
 			setKeys("int32", 1, index.Set(part.NewSet(v)))
 		}
 	}
+	// decimal strings with leading zeros are the same numbers; prefixed or grouped literals (0x10, 0b11, 0o7, 1_000) are not decimal
+	// numbers and must not be given the key of some value
+	for _, ps := range parsers {
+		for _, c := range []struct {
+			s    string
+			want int64
+			ok   bool
+		}{{"010", 10, true}, {"0010", 10, true}, {"08", 8, true}, {"00", 0, true}, {"0x10", 0, false}, {"0X1f", 0, false}, {"0b11", 0, false}, {"0o17", 0, false}, {"1_000", 0, false}, {"1e3", 0, false}, {" 7", 0, false}, {"7 ", 0, false}, {"", 0, false}} {
+			k, err := ps.parse(c.s)
+			switch {
+			case c.ok && (err != nil || !bytes.Equal(k, ps.key(big.NewInt(c.want)))):
+				fail("parser-decimal/"+ps.name, "%s(%q)=(%x,%v), the decimal value %d has key %x", ps.name, c.s, k, err, c.want, ps.key(big.NewInt(c.want)))
+			case !c.ok && err == nil:
+				fail("parser-decimal/"+ps.name, "%s(%q) is not a decimal number but was accepted with key %x", ps.name, c.s, k)
+			}
+			tick()
+		}
+	}
+	if k, err := index.IntString("010"); err != nil || !bytes.Equal(k, index.Int(10)) {
+		fail("parser-decimal/IntString", "IntString(\"010\")=(%x,%v), Int(10)=%x", k, err, index.Int(10))
+	}
+	if k, err := index.IntString("0x10"); err == nil {
+		fail("parser-decimal/IntString", "IntString(\"0x10\") accepted with key %x", k)
+	}
+	// a key belongs to the caller: appending to one returned key must not change what the encoder returns for any value
+	{
+		type enc struct {
+			name string
+			f    func() []index.Key
+		}
+		encs := []enc{
+			{"Bool", func() []index.Key { return []index.Key{index.Bool(false), index.Bool(true)} }},
+			{"Uint16", func() []index.Key { return []index.Key{index.Uint16(0), index.Uint16(1), index.Uint16(0xffff)} }},
+			{"Uint32", func() []index.Key { return []index.Key{index.Uint32(0), index.Uint32(1)} }},
+			{"Uint64", func() []index.Key { return []index.Key{index.Uint64(0), index.Uint64(1)} }},
+			{"Int", func() []index.Key { return []index.Key{index.Int(0), index.Int(-1)} }},
+			{"String", func() []index.Key { return []index.Key{index.String("a"), index.String("b")} }},
+			{"NetIPAddr", func() []index.Key {
+				return []index.Key{index.NetIPAddr(netip.MustParseAddr("10.0.0.1")), index.NetIPAddr(netip.MustParseAddr("::1"))}
+			}},
+		}
+		for _, e := range encs {
+			before := e.f()
+			var want [][]byte
+			for _, k := range before {
+				want = append(want, bytes.Clone(k))
+			}
+			for _, k := range before {
+				for _, extra := range [][]byte{{'x'}, {0}, {'F'}, {'T', 'T'}} {
+					_ = append(k, extra...)
+				}
+			}
+			after := e.f()
+			for i := range after {
+				if !bytes.Equal(after[i], want[i]) {
+					fail("key-aliasing/"+e.name, "after appending to keys returned earlier, %s encodes its value #%d as %x (before: %x)", e.name, i, after[i], want[i])
+				}
+			}
+			tick()
+		}
+	}
 	for _, c := range []struct {
 		s    string
 		want bool
